@@ -44,6 +44,7 @@ pub fn stats() -> Stats {
 
 pub mod sync {
     use super::*;
+    pub use super::sync_cell::OnceCell;
 
     pub struct Lazy<T: Sync + 'static, F = fn() -> T> {
         inner: shuttle::lazy_static::Lazy<T>,
@@ -96,6 +97,332 @@ pub mod sync {
                 }
             }
             r
+        }
+    }
+}
+
+// ---------------------------------------------------------------------------
+// The rest of once_cell's surface, so that a tree which replaces `sync::Lazy`
+// by another once_cell primitive still builds against the stand-in and still
+// runs under the simulated scheduler. Cells are "fresh in every execution" by
+// an epoch stamp (statics outlive executions); every operation is preceded by
+// a scheduling point (`shuttle::thread::sleep(0)` is a plain context switch).
+// Only one task runs at a time under shuttle, so plain std atomics hold the state.
+
+fn sched() {
+    shuttle::thread::sleep(std::time::Duration::from_nanos(0));
+}
+
+fn note_cell(addr: usize) {
+    let mut cells = CELLS.lock().unwrap();
+    if !cells.contains(&addr) {
+        cells.push(addr);
+    }
+}
+
+pub mod race {
+    use super::*;
+    use std::sync::atomic::AtomicPtr;
+
+    /// `once_cell::race::OnceBox`: racy initialisation, first `set` wins.
+    pub struct OnceBox<T> {
+        epoch: AtomicU64,
+        ptr: AtomicPtr<T>,
+    }
+
+    impl<T> Default for OnceBox<T> {
+        fn default() -> Self {
+            Self::new()
+        }
+    }
+
+    impl<T> OnceBox<T> {
+        pub const fn new() -> Self {
+            OnceBox {
+                epoch: AtomicU64::new(0),
+                ptr: AtomicPtr::new(std::ptr::null_mut()),
+            }
+        }
+        fn cur(&self) -> *mut T {
+            let e = EPOCH.load(Ordering::SeqCst);
+            if self.epoch.swap(e, Ordering::SeqCst) != e {
+                // stale value of an earlier execution: forget it (leaked on purpose)
+                self.ptr.store(std::ptr::null_mut(), Ordering::SeqCst);
+            }
+            self.ptr.load(Ordering::SeqCst)
+        }
+        pub fn get(&self) -> Option<&T> {
+            sched();
+            let p = self.cur();
+            if p.is_null() {
+                None
+            } else {
+                Some(unsafe { &*p })
+            }
+        }
+        pub fn set(&self, value: Box<T>) -> Result<(), Box<T>> {
+            sched();
+            if !self.cur().is_null() {
+                return Err(value);
+            }
+            self.ptr.store(Box::into_raw(value), Ordering::SeqCst);
+            note_cell(self as *const Self as usize);
+            INITIALISED.fetch_add(1, Ordering::SeqCst);
+            Ok(())
+        }
+        pub fn get_or_init<F: FnOnce() -> Box<T>>(&self, f: F) -> &T {
+            match self.get_or_try_init(|| Ok::<Box<T>, core::convert::Infallible>(f())) {
+                Ok(v) => v,
+                Err(e) => match e {},
+            }
+        }
+        pub fn get_or_try_init<F, E>(&self, f: F) -> Result<&T, E>
+        where
+            F: FnOnce() -> Result<Box<T>, E>,
+        {
+            if let Some(v) = self.get() {
+                return Ok(v);
+            }
+            // racy by design: several tasks may run `f`; the first `set` wins
+            if self.cur().is_null() && INSIDE_ANY.load(Ordering::SeqCst) > 0 {
+                OVERLAP.fetch_add(1, Ordering::SeqCst);
+            }
+            let b = f()?;
+            let _ = self.set(b);
+            Ok(unsafe { &*self.cur() })
+        }
+    }
+
+    unsafe impl<T: Sync + Send> Sync for OnceBox<T> {}
+
+    /// `once_cell::race::OnceBool`
+    pub struct OnceBool {
+        epoch: AtomicU64,
+        v: AtomicUsize, // 0 unset, 1 false, 2 true
+    }
+    impl OnceBool {
+        pub const fn new() -> Self {
+            OnceBool {
+                epoch: AtomicU64::new(0),
+                v: AtomicUsize::new(0),
+            }
+        }
+        fn cur(&self) -> usize {
+            let e = EPOCH.load(Ordering::SeqCst);
+            if self.epoch.swap(e, Ordering::SeqCst) != e {
+                self.v.store(0, Ordering::SeqCst);
+            }
+            self.v.load(Ordering::SeqCst)
+        }
+        pub fn get(&self) -> Option<bool> {
+            sched();
+            match self.cur() {
+                0 => None,
+                x => Some(x == 2),
+            }
+        }
+        pub fn set(&self, value: bool) -> Result<(), ()> {
+            sched();
+            if self.cur() != 0 {
+                return Err(());
+            }
+            self.v.store(1 + value as usize, Ordering::SeqCst);
+            Ok(())
+        }
+        pub fn get_or_init<F: FnOnce() -> bool>(&self, f: F) -> bool {
+            if let Some(v) = self.get() {
+                return v;
+            }
+            let v = f();
+            let _ = self.set(v);
+            self.cur() == 2
+        }
+    }
+
+    /// `once_cell::race::OnceNonZeroUsize`
+    pub struct OnceNonZeroUsize {
+        epoch: AtomicU64,
+        v: AtomicUsize,
+    }
+    impl OnceNonZeroUsize {
+        pub const fn new() -> Self {
+            OnceNonZeroUsize {
+                epoch: AtomicU64::new(0),
+                v: AtomicUsize::new(0),
+            }
+        }
+        fn cur(&self) -> usize {
+            let e = EPOCH.load(Ordering::SeqCst);
+            if self.epoch.swap(e, Ordering::SeqCst) != e {
+                self.v.store(0, Ordering::SeqCst);
+            }
+            self.v.load(Ordering::SeqCst)
+        }
+        pub fn get(&self) -> Option<core::num::NonZeroUsize> {
+            sched();
+            core::num::NonZeroUsize::new(self.cur())
+        }
+        pub fn set(&self, value: core::num::NonZeroUsize) -> Result<(), ()> {
+            sched();
+            if self.cur() != 0 {
+                return Err(());
+            }
+            self.v.store(value.get(), Ordering::SeqCst);
+            Ok(())
+        }
+        pub fn get_or_init<F: FnOnce() -> core::num::NonZeroUsize>(&self, f: F) -> core::num::NonZeroUsize {
+            if let Some(v) = self.get() {
+                return v;
+            }
+            let v = f();
+            let _ = self.set(v);
+            core::num::NonZeroUsize::new(self.cur()).unwrap()
+        }
+    }
+}
+
+pub mod sync_cell {
+    use super::*;
+    use std::cell::UnsafeCell;
+
+    const EMPTY: usize = 0;
+    const RUNNING: usize = 1;
+    const READY: usize = 2;
+
+    /// `once_cell::sync::OnceCell`: blocking initialisation (waiters yield to the scheduler).
+    pub struct OnceCell<T> {
+        epoch: AtomicU64,
+        state: AtomicUsize,
+        value: UnsafeCell<Option<T>>,
+    }
+    unsafe impl<T: Sync + Send> Sync for OnceCell<T> {}
+    unsafe impl<T: Send> Send for OnceCell<T> {}
+
+    impl<T> Default for OnceCell<T> {
+        fn default() -> Self {
+            Self::new()
+        }
+    }
+
+    impl<T> OnceCell<T> {
+        pub const fn new() -> Self {
+            OnceCell {
+                epoch: AtomicU64::new(0),
+                state: AtomicUsize::new(EMPTY),
+                value: UnsafeCell::new(None),
+            }
+        }
+        fn cur(&self) -> usize {
+            let e = EPOCH.load(Ordering::SeqCst);
+            if self.epoch.swap(e, Ordering::SeqCst) != e {
+                self.state.store(EMPTY, Ordering::SeqCst);
+                // the stale value is leaked on purpose: a reference into it may still be held by the harness
+                unsafe { std::mem::forget((*self.value.get()).take()) };
+            }
+            self.state.load(Ordering::SeqCst)
+        }
+        pub fn get(&self) -> Option<&T> {
+            sched();
+            if self.cur() == READY {
+                unsafe { (*self.value.get()).as_ref() }
+            } else {
+                None
+            }
+        }
+        pub fn set(&self, value: T) -> Result<(), T> {
+            sched();
+            loop {
+                match self.cur() {
+                    READY => return Err(value),
+                    RUNNING => {
+                        CONTENDED.fetch_add(1, Ordering::SeqCst);
+                        shuttle::thread::yield_now();
+                    }
+                    _ => break,
+                }
+            }
+            unsafe { *self.value.get() = Some(value) };
+            self.state.store(READY, Ordering::SeqCst);
+            note_cell(self as *const Self as usize);
+            INITIALISED.fetch_add(1, Ordering::SeqCst);
+            Ok(())
+        }
+        pub fn get_or_init<F: FnOnce() -> T>(&self, f: F) -> &T {
+            match self.get_or_try_init(|| Ok::<T, core::convert::Infallible>(f())) {
+                Ok(v) => v,
+                Err(e) => match e {},
+            }
+        }
+        pub fn get_or_try_init<F: FnOnce() -> Result<T, E>, E>(&self, f: F) -> Result<&T, E> {
+            sched();
+            loop {
+                match self.cur() {
+                    READY => return Ok(unsafe { (*self.value.get()).as_ref().unwrap() }),
+                    RUNNING => {
+                        CONTENDED.fetch_add(1, Ordering::SeqCst);
+                        shuttle::thread::yield_now();
+                    }
+                    _ => break,
+                }
+            }
+            self.state.store(RUNNING, Ordering::SeqCst);
+            if INSIDE_ANY.fetch_add(1, Ordering::SeqCst) > 0 {
+                OVERLAP.fetch_add(1, Ordering::SeqCst);
+            }
+            // if `f` panics the cell goes back to EMPTY (once_cell does not poison)
+            struct Reset<'a>(&'a AtomicUsize, bool);
+            impl<'a> Drop for Reset<'a> {
+                fn drop(&mut self) {
+                    INSIDE_ANY.fetch_sub(1, Ordering::SeqCst);
+                    if !self.1 {
+                        self.0.store(EMPTY, Ordering::SeqCst);
+                    }
+                }
+            }
+            let mut guard = Reset(&self.state, false);
+            let r = f();
+            match r {
+                Ok(v) => {
+                    unsafe { *self.value.get() = Some(v) };
+                    guard.1 = true;
+                    self.state.store(READY, Ordering::SeqCst);
+                    drop(guard);
+                    note_cell(self as *const Self as usize);
+                    INITIALISED.fetch_add(1, Ordering::SeqCst);
+                    Ok(unsafe { (*self.value.get()).as_ref().unwrap() })
+                }
+                Err(e) => {
+                    drop(guard);
+                    Err(e)
+                }
+            }
+        }
+    }
+}
+
+pub mod unsync {
+    //! Single-threaded cells: no scheduling points; a tree that shares one across threads must wrap it
+    //! unsafely, which only the Miri half can judge.
+    pub use std::cell::OnceCell;
+    pub struct Lazy<T, F = fn() -> T> {
+        cell: std::cell::OnceCell<T>,
+        init: std::cell::Cell<Option<F>>,
+    }
+    impl<T, F: FnOnce() -> T> Lazy<T, F> {
+        pub const fn new(f: F) -> Self {
+            Lazy {
+                cell: std::cell::OnceCell::new(),
+                init: std::cell::Cell::new(Some(f)),
+            }
+        }
+        pub fn force(this: &Self) -> &T {
+            this.cell.get_or_init(|| (this.init.take().expect("Lazy instance has previously been poisoned"))())
+        }
+    }
+    impl<T, F: FnOnce() -> T> core::ops::Deref for Lazy<T, F> {
+        type Target = T;
+        fn deref(&self) -> &T {
+            Self::force(self)
         }
     }
 }
